@@ -20,6 +20,7 @@ Decided clauses (shared with C12 R12.3):
   R15.3 bytes of the text are classified as values 0..255: in the decoders no sign-extended text byte reaches a
         classification helper or arithmetic ("only alphabet characters" over the full 8-bit character set; a
         sign-extended byte >= 0x80 makes the branch-free EQ() of the Base64 tables true for '+' and '/').
+  R15.7 both decoders hand back through *end the same position the end-pointer-less form compares with the length.
   R15.6 (E18, exact finite-domain evaluation of the branch-free table functions) reader's and writer's alphabets agree per variant: for
         every byte c, b64_char_to_byte(c) != 0xFF exactly when some digit x < 64 has b64_byte_to_char(x) == c, and then it returns x;
         the same for the URL-safe pair, whose alphabets differ from the original in exactly the two documented characters.
@@ -138,6 +139,7 @@ def run(ctx, chk):
     signedness_rule(prog, chk)
     hex_pairs_rule(prog, chk)
     alphabet_agreement_rule(prog, chk)
+    end_position_rule(prog, chk)
 
 
 def _strip(t):
@@ -264,6 +266,95 @@ def hex_pairs_rule(prog, chk):
                    detail="" if ok else "strchr(ignore, c) is consulted without the fact `%s == 0`: a digit pair may be split by an ignored "
                    "character" % fn.insts[P].get("name", "state"), path=None if ok else p, key="R15.4 sodium_hex2bin")
     chk.floor("R15.4", "paths of sodium_hex2bin on which an ignored character is skipped", n, 1)
+
+
+def _reaching(fn, slot):
+    """reaching definitions of a local scalar kept in memory: load inst id -> frozenset of defining inst ids (stores to the slot,
+    calls that receive its address); -1 = uninitialised"""
+    defs = {}
+    for i, ins in enumerate(fn.insts):
+        if ins["op"] == "store" and ins["ops"][1] == ["v", slot]:
+            defs[i] = ins["b"]
+        elif ins["op"] == "call" and ["v", slot] in [o[:2] for o in ins.get("ops", [])]:
+            c = ins.get("callee")
+            if not (c and c[0] == "g" and c[1].startswith(("llvm.lifetime", "llvm.dbg"))):
+                defs[i] = ins["b"]
+    nb = len(fn.blocks)
+    last = {}
+    for i in sorted(defs):
+        last[defs[i]] = i
+    IN = [frozenset() for _ in range(nb)]
+    IN[0] = frozenset([-1])
+    changed = True
+    while changed:
+        changed = False
+        for b in range(nb):
+            acc = set(IN[b])
+            for q in fn.blocks[b].get("preds", []):
+                acc |= ({last[q]} if q in last else IN[q])
+            if frozenset(acc) != IN[b]:
+                IN[b] = frozenset(acc)
+                changed = True
+    out = {}
+    for i, ins in enumerate(fn.insts):
+        if ins["op"] == "load" and ins["ops"][0] == ["v", slot]:
+            prev = [d for d, b in defs.items() if b == ins["b"] and d < i]
+            out[i] = frozenset([max(prev)]) if prev else IN[ins["b"]]
+    return out
+
+
+def end_position_rule(prog, chk):
+    """R15.7 "reports the end position as documented": the position handed back through *end and the position the form without
+    an end pointer compares with the input length are the same value (same SSA value, or loads of the same local reached by the
+    same definitions). Otherwise the two call forms disagree on where parsing stopped - e.g. trailing ignorable characters are
+    consumed by one form only."""
+    n = 0
+    for name in ("sodium_base642bin", "sodium_hex2bin"):
+        f = prog.need(name, unit="sodium/codecs.c", rule="R15.7")
+        endp = [k for k, p in enumerate(f.params) if p["ty"] == "i8**"]
+        if len(endp) != 1:
+            raise AnalysisBroken("R15.7: %s has no single end-pointer parameter" % name)
+        endp = endp[0]
+        txt = [k for k, p in enumerate(f.params) if p["ty"] == "i8*" and k + 1 < len(f.params) and f.params[k + 1]["ty"] == "i64" and k > 0]
+        if not txt:
+            raise AnalysisBroken("R15.7: %s: text / length parameters not found" % name)
+        txt = txt[0]
+        cache = {}
+
+        def ident(o, f=f, cache=cache):
+            if o[0] != "v":
+                return tuple(o)
+            d = f.insts[o[1]]
+            if d["op"] == "load" and d["ops"][0][0] == "v" and f.insts[d["ops"][0][1]]["op"] == "alloca":
+                slot = d["ops"][0][1]
+                if slot not in cache:
+                    cache[slot] = _reaching(f, slot)
+                return ("mem", slot, cache[slot].get(o[1]))
+            return ("ssa", o[1])
+        stored, compared = [], []
+        for i, ins in enumerate(f.insts):
+            if ins["op"] == "store" and ins["ops"][1] == ["a", endp] and ins["ops"][0][0] == "v":
+                g = f.insts[ins["ops"][0][1]]
+                if g["op"] == "getelementptr" and g["ops"][0] == ["a", txt] and len(g["ops"]) == 2:
+                    stored.append((i, ident(g["ops"][1])))
+                else:
+                    stored.append((i, None))
+            elif ins["op"] == "icmp" and ins.get("pred") in ("eq", "ne") and ["a", txt + 1] in [o[:2] for o in ins["ops"]]:
+                other = [o for o in ins["ops"] if o[:2] != ["a", txt + 1]]
+                if other:
+                    compared.append((i, ident(other[0])))
+        if not stored or not compared:
+            raise AnalysisBroken("R15.7: %s: end-pointer store / length comparison not found" % name)
+        for i, a in stored:
+            for j, b in compared:
+                n += 1
+                ok = a is not None and a == b
+                chk.ob("R15.7", f, "the position stored through %s at %s is the one compared with %s at %s" %
+                       (f.params[endp]["name"], f.loc(i), f.params[txt + 1]["name"], f.loc(j)), ok, loc=f.loc(i),
+                       detail="" if ok else "the two call forms use different positions (different definitions reach them): with an end pointer "
+                       "the caller is told parsing stopped somewhere else than where the form without one checks for trailing input",
+                       key="R15.7 %s end-position" % name)
+    chk.floor("R15.7", "end-position pairs of the decoders", n, 2)
 
 
 def alphabet_agreement_rule(prog, chk):
